@@ -191,6 +191,25 @@ def lines_of(out):
     return [json.loads(l) for l in out.splitlines() if l.startswith("{")]
 
 
+def cached_runner(ctx):
+    """extract + compile the model runner, reusing the binary while the model sources and the driver are unchanged"""
+    import hashlib, os, shutil
+    h = hashlib.sha256()
+    for f in c.coq_closure("Run/ExtractC10.v"):
+        h.update(open(os.path.join(c.COQ, f), "rb").read())
+    h.update(open(os.path.join(c.VERIF, "ocaml", "driver_c10.ml"), "rb").read())
+    tagged = os.path.join(c.CACHE, "ocaml", "c10", "runner." + h.hexdigest()[:20])
+    if os.path.exists(tagged):
+        ctx.notes["model_runner"] = "reused (model sources unchanged)"
+        return True, tagged
+    ok, r = c.extract_build(ctx, "ExtractC10.v", "driver_c10.ml", "c10")
+    if ok:
+        shutil.copy(r, tagged)
+        ctx.notes["model_runner"] = "extracted and compiled in this run"
+        return True, tagged
+    return ok, r
+
+
 # ----------------------------------------------------------------------------- the check
 def run(ctx):
     ctx.assumptions += [
@@ -217,7 +236,7 @@ def run(ctx):
                       "harness no longer builds against the implementation", no_input=True)
         return
 
-    okx, runner = c.extract_build(ctx, "ExtractC10.v", "driver_c10.ml", "c10")
+    okx, runner = cached_runner(ctx)
     if not okx:
         ctx.violation({"layer": "model extraction / runner build", "error": runner[-2000:]}, "the extracted model runner no longer builds", no_input=True)
         return
